@@ -82,6 +82,10 @@ func (mergeEngine) Gen(t *rapid.T, tier string) any {
 		c.Events = append(c.Events, simrt.EvSpec{
 			Author: rapid.IntRange(0, 1).Draw(t, "author"), Kind: rapid.SampledFrom([]int64{1, 1, 7}).Draw(t, "kind"),
 			CreatedAt: int64(rapid.IntRange(0, 6).Draw(t, "created_at")), Content: fmt.Sprintf("m%d", i)})
+		if rapid.IntRange(0, 11).Draw(t, "xts") == 0 {
+			// far apart: before 1970 and near the ends of the int64 range
+			c.Events[i].CreatedAt = rapid.SampledFrom([]int64{-5000000000000000000, 5000000000000000000, math.MinInt64, math.MaxInt64, -1}).Draw(t, "xtsv")
+		}
 		if tg := rapid.IntRange(0, 5).Draw(t, "tags"); tg > 0 {
 			a0 := ref.Authors[0].Pubkey
 			c.Events[i].Tags = [][][]string{{{"t", "x"}}, {{"p", a0}}, {{"t", "x"}, {"t", "y"}}, {{"t", "y"}, {"p", a0}}, {{"p", a0}, {"t", "z"}}}[tg-1]
